@@ -158,6 +158,9 @@ type pwPartAck struct {
 	sg, node, gen int
 	seen          bool
 	err           error
+	// while the call waited, the node applied an entry that an earlier process life of the same
+	// node had proposed (and got no outcome for)
+	earlierLife bool
 }
 
 func (r *pwRun) writePart(call *pwCall, sgi int, rows []influx.Row, deadline time.Time) error {
@@ -177,18 +180,36 @@ func (r *pwRun) writePart(call *pwCall, sgi int, rows []influx.Row, deadline tim
 				tail := pwTail(shardID, rows)
 				res := make(chan error, 1)
 				pa := &pwPartAck{sg: sgi, node: ni, gen: n.gen}
+				r.c.net.mu.Lock()
+				if r.proposed == nil {
+					r.proposed = map[int][][2]int{}
+				}
+				r.proposed[call.id*4+sgi] = append(r.proposed[call.id*4+sgi], [2]int{ni, n.gen})
+				r.c.net.mu.Unlock()
+				n.mu.Lock()
+				seq0 := len(n.applySeq)
+				n.mu.Unlock()
 				go func() {
 					e := n.eng.WriteToRaft(pwDB, pwRP, pt, tail)
 					// server side of the answer: what had the node applied when it answered
 					n.mu.Lock()
 					ae, seen := n.applied[call.id*4+sgi]
+					during := append([]int(nil), n.applySeq[seq0:]...)
 					n.mu.Unlock()
 					r.c.net.mu.Lock()
+					for _, key := range during {
+						if key == call.id*4+sgi {
+							continue
+						}
+						for _, at := range r.proposed[key] {
+							if at[0] == ni && at[1] < n.gen {
+								pa.earlierLife = true
+							}
+						}
+					}
 					if n.alive {
 						pa.seen, pa.err = seen, ae
-						if l := n.disk.Len(); l > n.visible {
-							n.visible = l
-						}
+						n.observe(n.disk.Len(), "answer")
 					}
 					r.c.net.mu.Unlock()
 					res <- e
@@ -240,7 +261,7 @@ func (r *pwRun) links() []pwLink {
 	var ls []pwLink
 	for f := 0; f < pwNNodes; f++ {
 		for t := 0; t < pwNNodes; t++ {
-			if len(net.q[f][t]) > 0 {
+			if len(net.q[f][t]) > 0 && !time.Now().Before(net.held[f][t]) && (r.headFilter == nil || r.headFilter(net.q[f][t][0])) {
 				ls = append(ls, pwLink{f, t})
 			}
 		}
@@ -307,6 +328,19 @@ func (r *pwRun) deliver(m *pwMsg) *core.Violation {
 	if err := msg.Unmarshal(m.data); err != nil {
 		panic(core.InfraPanic("raft message does not unmarshal: " + err.Error()))
 	}
+	// the message has been seen: the sender's crash image can no longer be cut before the send
+	r.c.net.mu.Lock()
+	if m.src != nil && m.src.alive {
+		m.src.observe(m.jpos, "send")
+		if m.src.visible == m.jpos && m.src.visKind == "send" {
+			m.src.visMsg = m.typ.String()
+			if m.reject {
+				m.src.visMsg += "(reject)"
+			}
+		}
+	}
+	r.c.net.mu.Unlock()
+	r.noteRaftFacts(m, &msg)
 	if (msg.Type == raftpb.MsgApp || msg.Type == raftpb.MsgHeartbeat) && msg.Term >= r.leaderTerm {
 		if r.leaderHint != m.from && r.leaderHint >= 0 {
 			r.out.Probes["leader changed"]++
@@ -342,8 +376,68 @@ func (r *pwRun) pump(rnd *core.Rand, max int, faults bool) *core.Violation {
 		if !ok {
 			break
 		}
+		if r.pumpStop != nil && r.pumpStop() {
+			break
+		}
 	}
 	return nil
+}
+
+// voteQueued: a vote request waits in some queue (other: one of a node that is not the
+// candidate noted before); the requester is noted as the candidate.
+func (r *pwRun) voteQueued(other bool) bool {
+	net := r.c.net
+	net.mu.Lock()
+	defer net.mu.Unlock()
+	best := (*pwMsg)(nil)
+	for f := 0; f < pwNNodes; f++ {
+		for t := 0; t < pwNNodes; t++ {
+			for _, m := range net.q[f][t] {
+				if m.typ != raftpb.MsgVote || (other && m.from == r.cand) {
+					continue
+				}
+				if best == nil || m.seq < best.seq {
+					best = m
+				}
+			}
+		}
+	}
+	if best == nil {
+		return false
+	}
+	if !other {
+		r.cand = best.from
+	}
+	return true
+}
+
+// noteRaftFacts records (probes only, nothing is judged) facts about the raft group that
+// the delivered messages reveal: a node that granted its vote to two candidates in one
+// term, two nodes acting as leader in one term.
+func (r *pwRun) noteRaftFacts(m *pwMsg, msg *raftpb.Message) {
+	if r.votes == nil {
+		r.votes = map[[2]uint64]uint64{}
+		r.leaders = map[uint64]int{}
+	}
+	switch msg.Type {
+	case raftpb.MsgVoteResp:
+		if !msg.Reject {
+			k := [2]uint64{uint64(m.from), msg.Term}
+			if to, ok := r.votes[k]; ok && to != msg.To {
+				r.out.Probes["a node granted its vote twice in one term"]++
+				r.logf("node %d granted its vote twice in term %d", m.from, msg.Term)
+			}
+			r.votes[k] = msg.To
+			r.voter = m.from
+			r.grants++
+		}
+	case raftpb.MsgApp, raftpb.MsgHeartbeat:
+		if l, ok := r.leaders[msg.Term]; ok && l != m.from {
+			r.out.Probes["two leaders in one term"]++
+			r.logf("nodes %d and %d both lead term %d", l, m.from, msg.Term)
+		}
+		r.leaders[msg.Term] = m.from
+	}
 }
 
 // runFor lets the cluster run for d of virtual time: messages are delivered as
@@ -420,6 +514,38 @@ func (r *pwRun) resolve(sel string, rnd *core.Rand) (int, string) {
 		if i := int(sel[1] - '0'); up(i) {
 			pick = i
 		}
+	case "held": // the node whose links were slowed down last
+		if up(r.heldNode) {
+			pick = r.heldNode
+		}
+	case "cut": // the isolated node
+		if up(r.cutNode) {
+			pick = r.cutNode
+		}
+	case "cand": // the node whose vote request was seen first
+		if up(r.cand) {
+			pick = r.cand
+		}
+	case "voter": // the node whose granted vote was delivered last
+		if up(r.voter) {
+			pick = r.voter
+		}
+	case "idle": // neither the leader nor the candidate
+		for i := 0; i < pwNNodes; i++ {
+			if up(i) && i != leader && i != r.cand {
+				pick = i
+				break
+			}
+		}
+	case "focus": // the follower that still hears the leader while the other one's links are slow
+		for pass := 0; pass < 2 && pick < 0; pass++ {
+			for i := 0; i < pwNNodes; i++ {
+				if up(i) && i != leader && i != r.heldNode && (pass == 1 || i != master) {
+					pick = i
+					break
+				}
+			}
+		}
 	}
 	if pick < 0 {
 		for i := 0; i < pwNNodes; i++ {
@@ -455,16 +581,92 @@ func (r *pwRun) step(i int, op POp) *core.Violation {
 			r.logf("op%d w id=%d async", i, op.ID)
 			return nil
 		}
+		if op.Tight {
+			// the scheduler stops delivering at the very instant the client has its answer
+			r.pumpStop = call.finished
+			defer func() { r.pumpStop = nil }()
+		}
 		return r.finishPending(rnd)
+	case "hold":
+		// a slow network, not a fault: the messages on the node's links stay queued (in order) for
+		// at most 3 s of virtual time - less than the shortest election timeout
+		x, role := r.resolve(op.Sel, rnd)
+		ms := op.Ms
+		if ms <= 0 || ms > 3000 {
+			ms = 3000
+		}
+		until := time.Now().Add(time.Duration(ms) * time.Millisecond)
+		net := r.c.net
+		net.mu.Lock()
+		for k := 0; k < pwNNodes; k++ {
+			if k != x {
+				net.held[k][x] = until
+				if !op.OneW {
+					net.held[x][k] = until
+				}
+			}
+		}
+		net.mu.Unlock()
+		r.heldNode = x
+		r.out.Stats["holds"]++
+		r.logf("op%d hold %s %dms onew=%v", i, role, ms, op.OneW)
+		return nil
+	case "xfer":
+		// the meta service asks the group to make the master partition's replica the raft leader
+		// (what ts-meta does after UpdateReplication: Store.TransferLeadership -> Engine.TransferLeadership)
+		mpt := r.c.meta.masterPt()
+		mi := r.c.meta.nodeOfPt(mpt)
+		if mi < 0 || r.c.nodes[mi] == nil || !r.c.isAlive(r.c.nodes[mi]) || r.leaderHint == mi {
+			r.logf("op%d xfer skipped", i)
+			return nil
+		}
+		x, _ := r.resolve("leader", rnd)
+		n := r.c.nodes[x]
+		if n == nil || !r.c.isAlive(n) || n.eng == nil {
+			return nil
+		}
+		go func() { _ = n.eng.TransferLeadership(pwDB, r.c.meta.ids[x], n.pt, mpt) }()
+		r.wait()
+		v := r.runUntil(3*time.Second, rnd, true, func() bool { return r.leaderHint == mi })
+		if r.leaderHint == mi {
+			r.out.Stats["leadership_transfers"]++
+		}
+		r.logf("op%d xfer to n%d ok=%v", i, mi, r.leaderHint == mi)
+		return v
 	case "run":
 		r.logf("op%d run %dms", i, op.Ms)
 		return r.runFor(time.Duration(op.Ms)*time.Millisecond, rnd, true)
 	case "pump":
-		r.logf("op%d pump %d", i, op.N)
+		r.logf("op%d pump %d %s %s", i, op.N, op.Only, op.Until)
+		if op.Only == "vote" {
+			// only links whose next message is a vote request or an answer to one (order per link is kept)
+			r.headFilter = func(m *pwMsg) bool { return m.typ == raftpb.MsgVote || m.typ == raftpb.MsgVoteResp }
+			defer func() { r.headFilter = nil }()
+		}
+		if op.Until == "voteresp" {
+			// deliveries stop at the instant a granted vote has arrived
+			g0 := r.grants
+			r.pumpStop = func() bool { return r.grants > g0 }
+			defer func() { r.pumpStop = nil }()
+		}
 		return r.pump(rnd, op.N, true)
 	case "tick":
-		time.Sleep(time.Duration(op.Ms) * time.Millisecond)
-		r.wait()
+		// the clock moves, nothing is delivered
+		r.logf("op%d tick %dms", i, op.Ms)
+		for left := time.Duration(op.Ms) * time.Millisecond; left > 0; left -= pwStepTick {
+			if op.Until != "" && r.voteQueued(op.Until == "vote2") {
+				break
+			}
+			d := pwStepTick
+			if left < d {
+				d = left
+			}
+			time.Sleep(d)
+			r.wait()
+			if r.c.lag {
+				r.c.syncAllMeta()
+			}
+		}
 		return nil
 	case "crash":
 		return r.crash(i, op, rnd)
@@ -635,7 +837,11 @@ func (r *pwRun) fold(call *pwCall) *core.Violation {
 			continue
 		}
 		what := "the acknowledging node had not applied the batch to its shard"
-		at := map[string]string{"apply": "not_applied", "meta_lag": fmt.Sprint(r.cs.MetaLag)}
+		at := map[string]string{"apply": "not_applied", "meta_lag": fmt.Sprint(r.cs.MetaLag), "acked_by": "unknown"}
+		if pa.earlierLife {
+			what += " (while the call waited the node applied an entry that an earlier process life of this node had proposed without getting an outcome)"
+			at["acked_by"] = "entry_of_an_earlier_life"
+		}
 		if pa.seen && pa.err != nil {
 			what = "the local apply of the batch had failed: " + pa.err.Error()
 			at["apply"] = "failed"
@@ -661,38 +867,93 @@ func (r *pwRun) fold(call *pwCall) *core.Violation {
 	return r.checkMaster("after_ack")
 }
 
+// pwIsRaftFile: the path is a file of the partition's raft store (entry log, hard state / snapshot meta).
+func pwIsRaftFile(p string) bool {
+	return strings.HasSuffix(p, "raft.meta") || strings.HasSuffix(p, ".entry")
+}
+
 func (r *pwRun) crash(i int, op POp, rnd *core.Rand) *core.Violation {
-	if r.downNode >= 0 || r.cutNode >= 0 {
+	if r.downNode >= 0 {
 		r.logf("op%d crash skipped", i)
 		return nil
 	}
 	x, role := r.resolve(op.Sel, rnd)
+	if r.cutNode >= 0 {
+		if r.cutNode != x || r.paused {
+			r.logf("op%d crash skipped", i)
+			return nil
+		}
+		// the isolated node itself is killed: it stays the only faulty one, and what was cut
+		// were the connections of a process that no longer exists
+		net := r.c.net
+		net.mu.Lock()
+		for a := 0; a < pwNNodes; a++ {
+			for b := 0; b < pwNNodes; b++ {
+				net.blocked[a][b] = false
+			}
+		}
+		net.mu.Unlock()
+		r.cutNode = -1
+		r.out.Stats["crash_of_the_isolated_node"]++
+	}
 	n := r.c.nodes[x]
 	r.wait()
 	inflight := r.pending != nil && !r.pending.finished()
+	// entries the victim has sent but that nobody has received yet die with its connections
+	unsentApp := false
+	r.c.net.mu.Lock()
+	for k := 0; k < pwNNodes; k++ {
+		for _, m := range r.c.net.q[x][k] {
+			if m.typ == raftpb.MsgApp && m.nent > 0 {
+				unsentApp = true
+			}
+		}
+	}
+	r.c.net.mu.Unlock()
 	journal := r.c.kill(n)
 	n.frozen = len(journal)
 	k, torn := len(journal), -1
 	lost := 0
-	if op.Back > 0 && len(journal) > n.visible {
-		span := len(journal) - n.visible
-		lost = (span*op.Back + 999) / 1000
-		if lost > span {
-			lost = span
+	// The kill happened at some local instant t <= now.  Everything the process did after t is
+	// lost - file-system mutations and sends alike - so t is legal only if nothing done after it
+	// has been observed: lo is the journal length at the last observed action (a delivered
+	// message counts with the length at its send instant, an answered client and a committed
+	// entry the harness learned from this disk with the length at that instant).  Messages sent
+	// after t are still queued and were purged by kill().
+	lo := n.visible
+	if r.cs.Cut != "observed" && n.sentMax > lo {
+		lo = n.sentMax // replay files recorded under the rule before
+	}
+	if lo > len(journal) {
+		lo = len(journal)
+	}
+	want := -1
+	switch {
+	case op.Early:
+		want = lo // the earliest legal instant: right after the last observed action
+	case op.Back > 0 && len(journal) > lo:
+		span := len(journal) - lo
+		back := (span*op.Back + 999) / 1000
+		if back > span {
+			back = span
 		}
-		k = len(journal) - lost
+		want = len(journal) - back
+	}
+	if want >= 0 && want < len(journal) {
+		k = want
 		// raft.meta is updated by groups of small writes (hard state: length at 512 + body;
 		// snapshot: index at 1024, term at 1032, length at 1040, body at 1044), possibly interleaved
 		// with writes of other goroutines.  A kill inside such a group is lib/raftlog's own
 		// crash-consistency subject (C17, known findings there).  Unless the case asks for it the
-		// cut moves back to the start of the group it would fall into.
+		// cut moves to the start of the group it would fall into (or, if the group began before
+		// the last observed action, to its end).
 		isMeta := func(q int) bool {
 			return q >= 0 && q < len(journal) && journal[q].Kind == simfs.KWrite && strings.HasSuffix(journal[q].Path, "raft.meta")
 		}
 		start, inGroup, afterLen := -1, false, false
-		for q := n.visible; q < k; q++ {
+		feed := func(q int) {
 			if !isMeta(q) {
-				continue
+				return
 			}
 			e := journal[q]
 			switch {
@@ -704,15 +965,28 @@ func (r *pwRun) crash(i int, op POp, rnd *core.Rand) *core.Violation {
 				afterLen = true
 			}
 		}
+		from := lo - 8
+		if from < 0 {
+			from = 0
+		}
+		for q := from; q < k; q++ {
+			feed(q)
+		}
 		if inGroup {
-			if !r.cs.SplitMeta {
-				k = start
-				lost = len(journal) - k
-			} else {
+			switch {
+			case r.cs.SplitMeta:
 				r.metaTorn = true
+			case start >= lo:
+				k = start
+			default:
+				for k < len(journal) && inGroup {
+					feed(k)
+					k++
+				}
 			}
 		}
-		if !r.cs.SplitMeta && isMeta(k) {
+		lost = len(journal) - k
+		if op.Early || (!r.cs.SplitMeta && isMeta(k)) {
 			op.Torn = false
 		}
 		if op.Torn && k < len(journal) {
@@ -732,8 +1006,47 @@ func (r *pwRun) crash(i int, op POp, rnd *core.Rand) *core.Violation {
 			}
 		}
 	}
+	if lost > 0 {
+		raftLost := false
+		for q := k; q < len(journal); q++ {
+			if pwIsRaftFile(journal[q].Path) {
+				raftLost = true
+				break
+			}
+		}
+		if k < n.sentMax {
+			// the cut lies before a send nobody received: the rule before (cut >= last send) had no such image
+			r.out.Stats["crash_cut_before_an_undelivered_send"]++
+		}
+		if k == lo && n.visKind == "send" && raftLost {
+			r.out.Probes["kill between send and persist (earliest cut)"]++
+		}
+		if k == lo && n.visKind == "answer" && raftLost {
+			r.out.Probes["kill right after the client was answered, raft writes lost"]++
+		}
+		if raftLost {
+			r.out.Stats["crash_lost_raft_log_writes"]++
+		}
+	}
+	if op.Early {
+		r.out.Stats["kills_at_the_earliest_legal_instant"]++
+		if k == lo && n.visKind == "send" {
+			switch n.visMsg {
+			case "MsgAppResp":
+				r.out.Probes["node killed right after its append acknowledgement was delivered (earliest cut)"]++
+			case "MsgVoteResp":
+				r.out.Probes["node killed right after its granted vote was delivered (earliest cut)"]++
+			}
+		}
+		if k == lo && n.visKind == "answer" {
+			r.out.Probes["node killed right after it answered the client (earliest cut)"]++
+		}
+	}
+	if unsentApp && x == r.leaderHint {
+		r.out.Probes["leader killed before re-replication"]++
+	}
 	if r.dbg {
-		for q := n.visible; q < len(journal); q++ {
+		for q := lo; q < len(journal); q++ {
 			mark := "  "
 			if q == k {
 				mark = fmt.Sprintf("=> cut here (torn=%d) ", torn)
